@@ -7,6 +7,7 @@ import SpsdkVerif.Model.Ahab
 import SpsdkVerif.Model.AhabVerify
 import SpsdkVerif.Model.AhabParse
 import SpsdkVerif.Model.AhabCert
+import SpsdkVerif.Model.AhabResign
 import SpsdkVerif.Spec.AhabRom
 import SpsdkVerif.Crypto.Exec
 open SpsdkVerif Driver
@@ -78,6 +79,19 @@ def layoutLine (img : Image) : PyRes String :=
       let n := u.placed.length
       s!"c{u.index} base={u.base} len={headerLength img.ver n o.length} sbo={sigBlockOffset img.ver n} srk={o.srkOff} sig={o.sigOff} cert={o.certOff} blob={o.blobOff} sblen={o.length} imgs=" ++
         ",".intercalate (u.placed.map (fun p => s!"{p.offset}:{p.ready.size}")))
+    .ok (" ".intercalate per ++ s!" total={imageLength img.chip us} start={startReal img.chip img.ver us}")
+
+/-- Phase 3: the state after a SECOND `update_fields()` (re-sign flow): layout numbers plus size, hash field and IV field of
+    every entry -/
+def relayoutLine (img : Image) : PyRes String :=
+  match img.update2 crypto with
+  | .error e => .error e
+  | .ok us =>
+    let per := us.map (fun u =>
+      let o := sbLayout img.ver u.cont.sb
+      let n := u.placed.length
+      s!"c{u.index} base={u.base} len={headerLength img.ver n o.length} sbo={sigBlockOffset img.ver n} srk={o.srkOff} sig={o.sigOff} cert={o.certOff} blob={o.blobOff} sblen={o.length} imgs=" ++
+        ",".intercalate (u.placed.map (fun p => s!"{p.offset}:{p.ready.size}:{p.iae.imageOffset}:{toHex p.ready.hash}:{toHex p.ready.iv}:{p.ready.image.length}")))
     .ok (" ".intercalate per ++ s!" total={imageLength img.chip us} start={startReal img.chip img.ver us}")
 
 def nthU (us : List UContainer) (k : Nat) : Option UContainer := us[k]?
@@ -153,6 +167,10 @@ def step (st : St) : List String → St × String
   | ["layout"] =>
     match theImage st with
     | .ok img => (st, resLine id (layoutLine img))
+    | .error e => (st, e.tag)
+  | ["relayout"] =>
+    match theImage st with
+    | .ok img => (st, resLine id (relayoutLine img))
     | .error e => (st, e.tag)
   | ["sigdata", k] =>
     match theImage st with
